@@ -213,6 +213,17 @@ PROPS["C09"] = dict(
                  "a stack overflow while loading a dictionary is observed as the death of a child process"],
 )
 
+PROPS["C05"] = dict(
+    pkg="./props/session", level="exploration", design_ref="DESIGN.md §3 C05",
+    technique="rapid state-machine simulation of two real engines over a harness-owned lossy link (cuts, reconnects, restarts on the file store); oracle = reference model of accepted sends versus the other side's delivery log after stabilisation",
+    level_note=SESSION_NOTE + " Frames are lost whole; the thread schedules of the real run loop and the socket layer are not in this simulation.",
+    stages=[dict(name="rapid", kind="rapid", run="^TestC05_Rapid$", checks=(500, 10000), shards=(12, 16), timeout=(600, 3000))],
+    require=["history-with:cut", "history-with:application-frame-lost-in-flight", "history-with:sent-while-not-logged-on", "history-with:restart-A", "history-with:restart-B",
+             "history-with:cut-during-recovery", "stores:file/file", "stores:memory/memory"],
+    assumptions=["sequence resets are disabled (no ResetOn* option)", "an engine restart is modelled on the file store only (a memory store does not survive a restart)",
+                 "'a few heartbeat intervals' = eight rounds of 'deliver everything, tick both heartbeat timers'"],
+)
+
 NOT_APPLICABLE = {}
 
 HOOK_COMMITS = ["ce15100"]
